@@ -50,11 +50,15 @@ def valid_hidden(world):
     """All assignments of the hidden ground fluents that satisfy the constraints, by brute
     force, in canonical order.  Each is a tuple of booleans aligned with world['hidden']."""
     # hidden = what the constraints mention (that is how the library defines it)
-    mentioned = set()
+    mentioned = []
     for c in world["constraints"]:
         for l in (c["lits"][1:2] if c.get("via") == "unknown" else c["lits"]):
-            mentioned.add(gkey(l[1]) if l[0] == "not" else gkey(l))
+            k = gkey(l[1]) if l[0] == "not" else gkey(l)
+            if k not in mentioned:
+                mentioned.append(k)
     hid = [gkey(h) for h in world["hidden"] if gkey(h) in mentioned]
+    # (a script whose `hidden` list lost an entry: what the constraints mention is hidden all the same)
+    hid += [k for k in mentioned if k not in hid]
     out = []
     for combo in product([False, True], repeat=len(hid)):
         val = dict(zip(hid, combo))
@@ -124,7 +128,8 @@ class EnvSim(Engine):
     nruns = {"quick": 3000, "thorough": 400000}
     budgets = {"quick": 45.0, "thorough": 540.0}
     rule = (
-        "script = contingent problem (3-6 hidden Boolean ground fluents under unknown / oneof / or constraints; "
+        "script = contingent problem (3-6 hidden Boolean ground fluents under unknown / oneof / or constraints, some with a default or "
+        "an explicit value the drawn state must override; refused re-declarations of fluents with other defaults; "
         "non-hidden Boolean, bounded-int and object-valued fluents whose initial value is explicit, a per-fluent default "
         "or a per-type default; sensing actions observing 1-2 fluents; ordinary actions with conditional effects on "
         "hidden fluents) + the index of the hidden state the PRNG shim must pick among the valid ones (brute force) + "
@@ -395,6 +400,8 @@ class EnvSim(Engine):
                 scope = {q.name: q for q in a.parameters}
                 for pre in ad["pre"]:
                     a.add_precondition(W.expr(pre, scope))
+                if any(not (isinstance(o, list) and o and o[0] == "f") for o in ad["observes"]):
+                    raise BuildError("observed expression is not a fluent")
                 a.add_observed_fluents([W.expr(o, scope) for o in ad["observes"]])
             else:
                 a = InstantaneousAction(ad["name"], sig, W.env)
@@ -416,6 +423,19 @@ class EnvSim(Engine):
             ctx.probe("discarded-unsatisfiable-constraints")
             return False
         target = dict(zip(hid, valid[script["pick"] % len(valid)]))
+        for c in world["constraints"]:
+            for l in c["lits"]:
+                l2 = l[1] if isinstance(l, list) and l and l[0] == "not" and len(l) == 2 else l
+                if not (isinstance(l2, list) and l2 and l2[0] == "f"):
+                    raise BuildError("constraint literal is not a (negated) fluent")
+        # the generator declares a value for every non-Boolean fluent; a script that does not (a minimised one) is
+        # outside the statement ("takes the problem's declared initial value")
+        rs_decl = RefSem(self.det_world(world, {}))
+        declared = rs_decl.initial_state()
+        ftype = {fd["name"]: fd["type"][0] for fd in world["fluents"]}
+        if any(gf not in declared and gf not in hid and ftype.get(gf[0]) != "bool" for gf in rs_decl.ground_fluents()):
+            ctx.probe("discarded-undeclared-non-boolean-fluent")
+            return False
         try:
             W = World(world)
             problem, acts = self.build_problem(W, world)
@@ -432,6 +452,11 @@ class EnvSim(Engine):
                 warnings.simplefilter("ignore")
                 env = ee_mod.SimulatedExecutionEnvironment(problem)
         except Exception as ex:
+            declared = RefSem(self.det_world(world, {})).initial_state()
+            if any(gf not in declared and gf not in hid for gf in RefSem(self.det_world(world, {})).ground_fluents()):
+                # a fluent with no declared value at all (outside the statement): nothing is promised
+                ctx.probe("discarded-undeclared-fluent-and-constructor-raised")
+                return False
             ctx.fail("C35.constructs", f"SimulatedExecutionEnvironment(problem) raised {type(ex).__name__}: {str(ex)[:300]}",
                      cls=type(ex).__name__)
             return False
